@@ -21,6 +21,8 @@ VARIABLES
   k,
   \* @type: Str;
   mode,
+  \* @type: Str;
+  variant,
   \* @type: Bool;
   failed,
   \* @type: Int;
@@ -34,27 +36,27 @@ CInit == N \in 0..1000000
 
 Fails(j) == IF mode = "from" THEN j >= k ELSE j = k
 
-Init == /\ pc = "run" /\ i = 0 /\ k \in 0..N /\ mode \in {"from", "once"}
+Init == /\ pc = "run" /\ i = 0 /\ k \in 0..N /\ mode \in {"from", "once"} /\ variant \in {"error", "short", "latent"}
         /\ failed = FALSE /\ delivered = 0 /\ firstErr = FALSE /\ ret = "none"
 
 SinkWrite ==
   /\ pc = "run" /\ i < N
   /\ failed' = (failed \/ Fails(i))
-  /\ delivered' = IF Fails(i) THEN delivered ELSE delivered + 1
+  /\ delivered' = IF Fails(i) /\ variant # "latent" THEN delivered ELSE delivered + 1
   /\ firstErr' = (firstErr \/ Fails(i))
   /\ pc' = IF Fails(i) THEN "return" ELSE "run"
   /\ i' = i + 1
-  /\ UNCHANGED <<k, mode, ret>>
+  /\ UNCHANGED <<k, mode, variant, ret>>
 
-Finish == /\ pc = "run" /\ i = N /\ pc' = "return" /\ UNCHANGED <<i, k, mode, failed, delivered, firstErr, ret>>
+Finish == /\ pc = "run" /\ i = N /\ pc' = "return" /\ UNCHANGED <<i, k, mode, variant, failed, delivered, firstErr, ret>>
 Return == /\ pc = "return" /\ ret' = (IF firstErr THEN "error" ELSE "ok") /\ pc' = "done"
-          /\ UNCHANGED <<i, k, mode, failed, delivered, firstErr>>
+          /\ UNCHANGED <<i, k, mode, variant, failed, delivered, firstErr>>
 Next == SinkWrite \/ Finish \/ Return
 
 Loud == ret = "ok" => (~failed /\ delivered = N)
 ErrorAfterSinkError == (pc = "done" /\ failed) => ret = "error"
 
-TypeOK == /\ pc \in {"run", "return", "done"} /\ mode \in {"from", "once"} /\ ret \in {"none", "ok", "error"}
+TypeOK == /\ pc \in {"run", "return", "done"} /\ mode \in {"from", "once"} /\ variant \in {"error", "short", "latent"} /\ ret \in {"none", "ok", "error"}
           /\ i \in 0..N /\ k \in 0..N /\ delivered \in 0..N
           /\ failed \in BOOLEAN /\ firstErr \in BOOLEAN
 
